@@ -194,7 +194,7 @@ var c14Lexemes = []string{
 	"(", ")", "[", "]", ".", "...", ",", "<", ">", "<=", ">=", "==", "===", "!=", "!==",
 	"+", "-", "*", "/", "%", "&", "|", "^", "&&", "||", "??", "!", "!.", "!!", "~", "?", ":", "=",
 	"true", "false", "null", "this", "ctx", "typeof",
-	"truex", "typeofa", "nul", "Null", "$a", "_", "a1", "é", "中", "x",
+	"truex", "typeofa", "nul", "Null", "$a", "_", "a1", "é", "中", "x", "__v", "___", "$$",
 	"1", "0", "1.", ".5", "1.5", "1e5", "1e+5", "1_0", "00",
 	"'s'", "\"t\"", "'it\\'s'", "'\\x41\\u00e9'",
 	// hostile lexemes
